@@ -23,6 +23,7 @@ macro_rules! props {
 
 props! {
     c01 => "C01",
+    c03 => "C03",
     c05 => "C05",
     c13 => "C13",
     #[cfg(feature = "full")] c02 => "C02",
@@ -30,6 +31,7 @@ props! {
     #[cfg(feature = "full")] c07 => "C07",
     #[cfg(feature = "full")] c08 => "C08",
     #[cfg(feature = "full")] c15 => "C15",
+    #[cfg(feature = "full")] c16 => "C16",
     #[cfg(feature = "full")] c20 => "C20",
 }
 
